@@ -31,8 +31,8 @@ AtKey(k) == [st |-> "valid", k |-> k]
 SeekPos(f, k) ==
   LET ge == {x \in DOMAIN f : x = k \/ Before(k, x)}
   IN  IF ge = {} THEN Inv ELSE AtKey(CHOOSE x \in ge : \A y \in ge : y = x \/ Before(x, y))
-FirstPos(f) == IF DOMAIN f = {} THEN Inv ELSE AtKey(KeysOf(f)[1])
-LastPos(f)  == IF DOMAIN f = {} THEN Inv ELSE AtKey(KeysOf(f)[Cardinality(DOMAIN f)])
+FirstPos(f) == IF DOMAIN f = {} THEN Inv ELSE AtKey(CHOOSE x \in DOMAIN f : \A y \in DOMAIN f : y = x \/ Before(x, y))
+LastPos(f)  == IF DOMAIN f = {} THEN Inv ELSE AtKey(CHOOSE x \in DOMAIN f : \A y \in DOMAIN f : y = x \/ Before(y, x))
 NextPos(f, p) ==
   IF p.st # "valid" THEN Inv
   ELSE LET gt == {x \in DOMAIN f : Before(p.k, x)}
@@ -55,6 +55,15 @@ MDelete(k) ==
   /\ res' = (k \in DOMAIN m)
   /\ m' = Restrict(m, DOMAIN m \ {k})
   /\ its' = IF k \in DOMAIN m THEN Stale(its) ELSE its
+\* bulk forms for very large maps: Set(x, x) for x in lo..hi-1, Delete(x) for x in lo..hi-1
+MBulkSet(lo, hi) ==
+  /\ res' = ((lo..(hi - 1)) \cap DOMAIN m = {})
+  /\ m' = [x \in lo..(hi - 1) |-> x] @@ m
+  /\ its' = Stale(its)
+MBulkDel(lo, hi) ==
+  /\ res' = ((lo..(hi - 1)) \subseteq DOMAIN m)
+  /\ m' = Restrict(m, DOMAIN m \ (lo..(hi - 1)))
+  /\ its' = Stale(its)
 MClear == res' = TRUE /\ m' = <<>> /\ its' = Stale(its)
 MFirst(i)    == its' = [its EXCEPT ![i] = FirstPos(m)] /\ UNCHANGED <<m, res>>
 MLast(i)     == its' = [its EXCEPT ![i] = LastPos(m)] /\ UNCHANGED <<m, res>>
